@@ -440,4 +440,114 @@ theorem seqStep_placed (n : Node) (hw : wp n = true) (hseq : IsSeq n.kind) (op :
   | delitem _ | delslice _ | pop _ | remove _ | reverse | sort _ _ | clear | imul _ | set _ | setDefault
   | len | getitem _ | getslice _ | contains _ | index _ | count _ => simp [placedSeq] at he
 
+/-! ### mappings -/
+
+theorem mem_replaceKid_new {kids : List Node} {key : Str} {child new : Node} (h : findKid kids key = some child) :
+    new ∈ replaceKid kids key new := by
+  have hc := findKid_some h
+  unfold replaceKid
+  exact List.mem_map.mpr ⟨child, hc.1, by simp [hc.2]⟩
+
+theorem mapSetItem_hdr (n : Node) (key : Str) (a : Arg) (next : Nat) : (mapSetItem n key a next).node.hdr = n.hdr := by
+  unfold mapSetItem
+  repeat' (first | split | (dsimp only; split))
+  all_goals rfl
+
+/-- `sparse[key] = element` for an element of the declared field class: the element itself is
+    stored (not copied), keyed and re-parented -/
+theorem mapSetItem_placed (n : Node) (hs : n.kind = .sparse) (key : Str) (e : Node) (f : Schema)
+    (hf : fieldFor n.sch.subs key = some f) (hi : isInstance e f = true) (next : Nat) :
+    noExc (mapSetItem n key (.elem e) next).out ∧
+    (e.withParent (some n.id)).withKey key ∈ (mapSetItem n key (.elem e) next).node.kids ∧
+    PlacedIn (mapSetItem n key (.elem e) next).node e := by
+  have hmain : noExc (mapSetItem n key (.elem e) next).out ∧
+      (e.withParent (some n.id)).withKey key ∈ (mapSetItem n key (.elem e) next).node.kids := by
+    unfold mapSetItem
+    simp only [hs, if_true, hf]
+    split
+    · simp only [hi, if_true]
+      exact ⟨trivial, by rw [kids_withKids']; simp⟩
+    · rename_i child hc
+      simp only [hi, if_true]
+      exact ⟨trivial, by rw [kids_withKids']; exact mem_replaceKid_new hc⟩
+  refine ⟨hmain.1, hmain.2, ?_⟩
+  have hh := mapSetItem_hdr n key (.elem e) next
+  refine placedIn_map (.inr (by rw [kind_of_hdr hh]; exact hs)) ⟨key, ?_⟩
+  rw [id_of_hdr hh]; exact hmain.2
+
+theorem mem_replaceKid_keep {kids : List Node} {key : Str} {new x : Node} (hx : x ∈ kids) (hne : x.key ≠ key) :
+    x ∈ replaceKid kids key new := by
+  unfold replaceKid
+  exact List.mem_map.mpr ⟨x, hx, by simp [hne]⟩
+
+/-- item assignment under another key leaves a stored child where it is -/
+theorem mapSetItem_keeps (n : Node) (key : Str) (a : Arg) (next : Nat) {x : Node} (hx : x ∈ n.kids) (hne : x.key ≠ key) :
+    x ∈ (mapSetItem n key a next).node.kids := by
+  have h1 : ∀ y, x ∈ (n.withKids (n.kids ++ [y])).kids := fun y => by
+    rw [kids_withKids']; exact List.mem_append.mpr (.inl hx)
+  have h2 : ∀ y, x ∈ (n.withKids (replaceKid n.kids key y)).kids := fun y => by
+    rw [kids_withKids']; exact mem_replaceKid_keep hx hne
+  unfold mapSetItem
+  repeat' (first | split | (dsimp only; split))
+  all_goals first | exact hx | exact h1 _ | exact h2 _
+
+theorem mapUpdateArgs_hdr (kvs : List (Str × Arg)) : ∀ (n : Node) (next : Nat), (mapUpdateArgs n kvs next).node.hdr = n.hdr := by
+  induction kvs with
+  | nil => intro n next; rfl
+  | cons kv rest ih =>
+    intro n next
+    obtain ⟨k, a⟩ := kv
+    rw [mapUpdateArgs]
+    split
+    · exact mapSetItem_hdr n k a next
+    · exact (ih _ _).trans (mapSetItem_hdr n k a next)
+
+theorem mapUpdateArgs_keeps (kvs : List (Str × Arg)) : ∀ (n : Node) (next : Nat) (x : Node), x ∈ n.kids →
+    (∀ p ∈ kvs, p.1 ≠ x.key) → x ∈ (mapUpdateArgs n kvs next).node.kids := by
+  induction kvs with
+  | nil => intro n next x hx _; exact hx
+  | cons kv rest ih =>
+    intro n next x hx hne
+    obtain ⟨k, a⟩ := kv
+    have h1 := mapSetItem_keeps n k a next hx (fun h => hne (k, a) (by simp) h.symm)
+    rw [mapUpdateArgs]
+    split
+    · exact h1
+    · exact ih _ _ x h1 (fun p hp => hne p (by simp [hp]))
+
+theorem key_placed (e : Node) (p : Option Nat) (k : Str) : ((e.withParent p).withKey k).key = k := by cases e; rfl
+
+/-- `sparse.update(...)` / `|=` with Element values: the element given last for a key, if it is of
+    the declared field class, is the child stored under that key afterwards -/
+theorem mapUpdateArgs_placed (pre post : List (Str × Arg)) (k : Str) (e : Node) (f : Schema) :
+    ∀ (n : Node) (next : Nat), n.kind = .sparse → fieldFor n.sch.subs k = some f → isInstance e f = true →
+      (∀ p ∈ post, p.1 ≠ k) → noExc (mapUpdateArgs n (pre ++ (k, .elem e) :: post) next).out →
+      PlacedIn (mapUpdateArgs n (pre ++ (k, .elem e) :: post) next).node e := by
+  induction pre with
+  | nil =>
+    intro n next hs hf hi hpost hno
+    have hp := mapSetItem_placed n hs k e f hf hi next
+    have hh := mapSetItem_hdr n k (.elem e) next
+    rw [List.nil_append, mapUpdateArgs] at hno ⊢
+    split
+    · rename_i ex hex
+      rw [hex] at hp; exact hp.1.elim
+    · have hk := mapUpdateArgs_keeps post (mapSetItem n k (.elem e) next).node (mapSetItem n k (.elem e) next).next _ hp.2.1
+        (fun p hp' => by rw [key_placed]; exact hpost p hp')
+      have hh2 := mapUpdateArgs_hdr post (mapSetItem n k (.elem e) next).node (mapSetItem n k (.elem e) next).next
+      refine placedIn_map (.inr (by rw [kind_of_hdr hh2, kind_of_hdr hh]; exact hs)) ⟨k, ?_⟩
+      rw [id_of_hdr hh2, id_of_hdr hh]; exact hk
+  | cons kv pre ih =>
+    intro n next hs hf hi hpost hno
+    obtain ⟨k', a'⟩ := kv
+    have hh := mapSetItem_hdr n k' a' next
+    rw [List.cons_append, mapUpdateArgs] at hno ⊢
+    split
+    · rename_i ex hex
+      rw [hex] at hno; exact hno.elim
+    · rename_i hnex
+      split at hno
+      · rename_i ex hex; exact absurd hex (hnex ex)
+      · exact ih _ _ (by rw [kind_of_hdr hh]; exact hs) (by rw [sch_of_hdr hh]; exact hf) hi hpost hno
+
 end Flatland.C08.Proofs
